@@ -60,7 +60,7 @@ Proof. intros H; exact H. Qed.
 Lemma Awaited_do_op o s : dead (do_op o s) = false -> Awaited s -> Awaited (do_op o s).
 Proof.
   intros Hd HA. unfold do_op in *. destruct (dead s) eqn:Hds; [exact HA|].
-  destruct o as [d| |].
+  destruct o as [d| | |cid].
   - assert (X : dead (do_write d s) = false -> Awaited (do_write d s)).
     { intros Hd'. unfold do_write in *. destruct (closed s) eqn:Ho; [exact HA|].
       destruct (is_full s d); [exact HA|].
@@ -97,6 +97,7 @@ Proof.
       [change (dead (close_stream (emit EClose s)) = false) in Hd; congruence|].
     apply Awaited_emit. intros Hc.
     rewrite closed_close' in Hc. discriminate.
+  - unfold do_cancel. destruct (existsb (Nat.eqb cid) (pending_ids (tr s))); simpl; rewrite Hds; exact HA.
 Qed.
 
 Lemma Awaited_run : forall ops s,
@@ -227,7 +228,7 @@ Definition W (s : stream) : Prop :=
 Lemma W_do_op o s : dead (do_op o s) = false -> W s -> W (do_op o s).
 Proof.
   intros Hd HW. unfold do_op in *. destruct (dead s) eqn:Hds; [exact HW|].
-  destruct o as [d| |].
+  destruct o as [d| | |cid].
   - assert (X : dead (do_write d s) = false -> W (do_write d s)).
     { intros Hd'. unfold do_write in *. destruct (closed s) eqn:Ho; [exact HW|].
       destruct (is_full s d); [exact HW|].
@@ -261,6 +262,7 @@ Proof.
       [change (dead (close_stream (emit EClose s)) = false) in Hd; congruence|].
     intros Hc. change (closed (close_stream (emit EClose s)) = false) in Hc.
     rewrite closed_close' in Hc. discriminate.
+  - unfold do_cancel. destruct (existsb (Nat.eqb cid) (pending_ids (tr s))); simpl; rewrite Hds; exact HW.
 Qed.
 
 Lemma W_run : forall ops s, Inv s /\ Q s -> W s -> W (run_ops ops s).
